@@ -522,7 +522,7 @@ type marshallingIntermediary struct {
 	Ignore   Ignore `yaml:"ignore"`
 	Features struct {
 		RemoteFeatures struct {
-			CheckVersion bool `yaml:"check_version"`
+			CheckVersion bool `yaml:"check-version"`
 		} `yaml:"remote"`
 	} `yaml:"features"`
 }
